@@ -2,6 +2,7 @@ from typing import TYPE_CHECKING, Callable, Dict, List, NamedTuple, Optional, Se
 
 from django.template import Library
 from django.template.base import Parser, Token
+from django.utils.text import smart_split
 
 from django_components.app_settings import ContextBehaviorType, app_settings
 from django_components.library import is_tag_protected, mark_protected_tags, register_tag
@@ -471,7 +472,9 @@ class ComponentRegistry:
         # the component name and passing the rest to the actual tag function.
         def tag_fn(parser: Parser, token: Token) -> ComponentNode:
             # Let the TagFormatter pre-process the tokens
-            bits = token.split_contents()
+            # NOTE: Not `token.split_contents()` - it glues words that follow a `_("...")` bit until one ends
+            # with `")`, which our syntax does not guarantee (`[_("a"), 1]`, `_("a")|upper`) -> StopIteration.
+            bits = list(smart_split(token.contents))
             formatter = get_tag_formatter(registry)
             result = formatter.parse([*bits])
             start_tag = formatter.start_tag(result.component_name)
